@@ -25,6 +25,9 @@ def classify_error(msg):
     m = re.search(r"Missing FX rate for (\S+) in (\d+)-(\d+)", msg)
     if m: return ("MissingFx", None, None, (m.group(1), int(m.group(2)), int(m.group(3))))
     if "Invalid tax year" in msg or "Invalid date" in msg: return ("TaxYear", None, None, None)
+    # wording this table does not know, but a refusal that names a transaction: its security and date are what the properties ask for
+    m = re.search(r"\b(?:SELL|BUY|CAPRETURN|ACCUMULATION|SPLIT|UNSPLIT|DIVIDEND)\s+(\S+?)\s+on\s+(\d{4}-\d\d-\d\d)", msg)
+    if m and "Parsing error" not in msg and "-->" not in msg: return ("Refusal", m.group(1), m.group(2), None)
     if "Parsing error" in msg or "-->" in msg: return ("Parse", None, None, None)
     return ("Other", None, None, msg[:200])
 
@@ -102,6 +105,10 @@ def compare_outcome(model, rust):
                 if cls == "NoExemption" and extra == e["year"]: ok = True
             elif k in ("TaxYear", "BadYear"):
                 if cls == "TaxYear": ok = True
+        if not ok and cls == "Refusal":
+            # a reworded message is not a defect: the refusal still has to name the security and the date the model's error names
+            for e in errs:
+                if e.get("tick") and e.get("date") is not None and tick == e["tick"] and date == iso_of_ordinal(e["date"]): ok = True
         if not ok:
             diffs.append(("error", "model errors %s" % errs[:3], "code error %s" % rust.get("error", "")[:200]))
     return diffs
